@@ -86,6 +86,16 @@ def main():
             return 2
         os.remove(os.path.join(bad, target_dir, dname))
         results = {}
+        base = os.environ.get("SEEDED_BASELINE")  # a checkout of an earlier commit of /verif: its owning check runs first
+        if base:
+            t0 = time.time()
+            rc, out = sh(f"{base}/bin/godsim check {prop} --tier quick", cwd=base, env=dict(ENV, VERIF_REPO=bad), timeout=1800)
+            for l in out.splitlines():
+                mm = re.search(r"replay=(\S+)", l)
+                if l.startswith("VIOLATION") and mm and os.path.exists(mm.group(1)):
+                    os.remove(mm.group(1))
+            meta["first_result_on_baseline_commit"] = "detected" if rc == 1 else "missed"
+            print("BASE", prop, "exit", rc, f"{time.time()-t0:.0f}s")
         for p in [prop] + extra:
             t0 = time.time()
             env = dict(ENV, VERIF_REPO=bad)
